@@ -21,6 +21,8 @@
 (*                own storage (fresh wrapper) holds the model's values     *)
 (*   content      the storage of an open dataset differs from the model    *)
 (*   file-exists / file-content   a file on disk differs from the model    *)
+(* A record with chk = FALSE carries no observation (scripted prefix      *)
+(* already observed in another trace): only `exc` is decided there.        *)
 (* drift = 1 when a call that must fail in the model did not raise (or     *)
 (* raised another class) without any observable difference.                *)
 (***************************************************************************)
@@ -39,7 +41,7 @@ TInit == /\ tid \in 1..NTRACES /\ l = 1 /\ ph = "do" /\ bad = "" /\ badstep = 0 
 
 \* compact encodings written by the harness:
 \*   contents  <<row_1, ..., row_|A|>> in AttrSeq order, row = <<k, t, inner_1, ..., inner_|A|>>
-\*   slot      <<status, contents | 0, fresh contents | 0 (= same as contents), number of unexpected attribute names>>
+\*   slot      <<status, contents | 0, fresh view differs?, fresh contents | 0, number of unexpected attribute names>>
 \*   path      <<exists, held by an open handle, contents | 0, number of unexpected attribute names>>
 NA == Len(AttrSeq)
 EqC(o, m) == \A i \in 1..NA : /\ o[i][1] = m[AttrSeq[i]].k /\ o[i][2] = m[AttrSeq[i]].t
@@ -49,7 +51,7 @@ Add(s, cond, c) == IF cond THEN Join(s, c) ELSE s
 ExcClass(err) == IF err = "missing" THEN "FileNotFoundError" ELSE IF err = "exists" THEN "FileExistsError" ELSE ""
 OSt(o) == o[1]
 OView(o) == o[2]
-OFresh(o) == IF o[3] = 0 THEN o[2] ELSE o[3]
+OFresh(o) == IF o[3] THEN o[4] ELSE o[2]
 
 Clauses ==
   LET O == Rec.obs
@@ -57,11 +59,12 @@ Clauses ==
       c2 == Add(c1, ev.act = "ReadDS" /\ IsOpen(ev.s) /\ OSt(O.ds[ev.s]) # "open", "src-closed")
       c3 == Add(c2, \E d \in D : OSt(O.ds[d]) # ds[d].st /\ ~(ev.act = "ReadDS" /\ d = ev.s /\ IsOpen(d)), "status")
       both == {d \in D : IsOpen(d) /\ OSt(O.ds[d]) = "open"}
-      c4 == Add(c3, \E d \in both : ~EqC(OView(O.ds[d]), View(d)) /\ EqC(OFresh(O.ds[d]), View(d)) /\ O.ds[d][4] = 0, "stale-view")
-      c5 == Add(c4, \E d \in both : ~EqC(OFresh(O.ds[d]), View(d)) \/ O.ds[d][4] # 0, "content")
+      c4 == Add(c3, \E d \in both : ~EqC(OView(O.ds[d]), View(d)) /\ EqC(OFresh(O.ds[d]), View(d)) /\ O.ds[d][5] = 0, "stale-view")
+      c5 == Add(c4, \E d \in both : ~EqC(OFresh(O.ds[d]), View(d)) \/ O.ds[d][5] # 0, "content")
       c6 == Add(c5, \E p \in P : O.files[p][1] # files[p].ex, "file-exists")
-      c7 == Add(c6, \E p \in P : O.files[p][2] # Held(p), "file-held")
-      c8 == Add(c7, \E p \in P : files[p].ex /\ O.files[p][1] /\ ~Held(p) /\ ~O.files[p][2]
+      srcGone(p) == ev.act = "ReadDS" /\ IsOpen(ev.s) /\ OSt(O.ds[ev.s]) # "open" /\ ds[ev.s].kind = "file" /\ ds[ev.s].path = p
+      c7 == Add(c6, \E p \in P : O.files[p][2] # Held(p) /\ ~srcGone(p), "file-held")
+      c8 == Add(c7, \E p \in P : files[p].ex /\ O.files[p][1] /\ ~Held(p) /\ ~O.files[p][2] /\ ~srcGone(p)
                                   /\ (~EqC(O.files[p][3], files[p].c) \/ O.files[p][4] # 0), "file-content")
   IN c8
 
@@ -70,7 +73,7 @@ TDo == /\ ph = "do" /\ l <= Len(Tr) /\ bad = ""
        /\ Do(E) /\ n' = n + 1
        /\ ph' = "chk" /\ UNCHANGED <<tid, l, bad, badstep, drift>>
 TChk == /\ ph = "chk"
-        /\ LET c == Clauses IN
+        /\ LET c == IF Rec.chk THEN Clauses ELSE Add("", Rec.exc # "" /\ ev.err = "", "exc") IN
            /\ bad' = c /\ badstep' = IF c = "" THEN 0 ELSE l
            /\ drift' = IF c = "" /\ ev.err # "" /\ Rec.exc # ExcClass(ev.err) THEN 1 ELSE drift
         /\ l' = IF ev.err # "" THEN Len(Tr) + 1 ELSE l + 1
